@@ -1,5 +1,5 @@
 import sys, os, json
-sys.path.insert(0, '/repo'); sys.path.insert(0, '/verif')
+import os; sys.path.insert(0, os.environ.get('RSIM_REPO','/repo')); sys.path.insert(0, '/verif')
 import casadi, rockit
 from rsim import hist, props, seams, model
 doc = json.load(open(sys.argv[1]))
